@@ -351,6 +351,15 @@ func TestTimestamps(t *testing.T) {
 			for i := 0; i < k; i++ {
 				sc.LayoutArgs = append(sc.LayoutArgs, rapid.SampledFrom(append([]string{""}, customLayouts...)).Draw(t, "layout"))
 			}
+			// which layout a call without any (non-empty) layout selects is not stated: the property speaks of "the logger's
+			// time layout if one was set" and quantifies over a list of custom layouts - at least one is always given
+			given := false
+			for _, l := range sc.LayoutArgs {
+				given = given || l != ""
+			}
+			if !given {
+				sc.LayoutArgs = append(sc.LayoutArgs, rapid.SampledFrom(customLayouts).Draw(t, "layout"))
+			}
 		}
 		sc.Via = rapid.SampledFrom([]string{"thru", "thru", "adapter"}).Draw(t, "via")
 		sc.TS = genInstant().Draw(t, "instant")
